@@ -15,12 +15,27 @@ if ! git apply $src/$m.diff 2>/dev/null; then
   git reset -q
 fi
 mkdir -p _out; cp -r $src/${m}_demo* _out/ 2>/dev/null; for f in $src/*_test.go; do case "$(basename $f)" in m[0-9]_*) ;; *) cp $f _out/ 2>/dev/null;; esac; done
+# SEED_DEMO_PKG=<dir>: the demo is an internal test of that package (copied there as zz_<m>_demo_test.go)
+# SEED_DEMO_SHARED=1: the demo shares helpers with the other demo test files of the property (all copied, run with -run TestM<N>)
+N=${m#m}
+if [ -n "${SEED_DEMO_PKG:-}" ]; then rm -rf _out; fi
 suite=pass
 ( "$VGO" test -vet=off -count=1 ./... >/tmp/suite-$id-$m.log 2>&1 && cd test && "$VGO" test -mod=mod -vet=off -count=1 ./... >>/tmp/suite-$id-$m.log 2>&1 ) || suite=FAIL
 rm -f test/compare/cmd/cmd
 rundemo() { # $1 = log
   local rc=0 d
   : > "$1"
+  if [ -n "${SEED_DEMO_PKG:-}" ]; then
+    cp $src/${m}_demo_test.go $SEED_DEMO_PKG/zz_${m}_demo_test.go
+    "$VGO" test -vet=off -count=1 -run "TestM${N}" ./$SEED_DEMO_PKG/ >>"$1" 2>&1 || rc=1
+    rm -f $SEED_DEMO_PKG/zz_${m}_demo_test.go
+    return $rc
+  fi
+  if [ -n "${SEED_DEMO_SHARED:-}" ]; then
+    mkdir -p _out; cp $src/m[0-9]_demo_test.go _out/; for f in $src/*_test.go; do cp $f _out/; done
+    "$VGO" test -vet=off -count=1 -run "TestM${N}" ./_out/ >>"$1" 2>&1 || rc=1
+    return $rc
+  fi
   for d in $(find _out -name '*_test.go' -o -name 'main.go' | xargs -n1 dirname | sort -u); do
     if ls $d/*_test.go >/dev/null 2>&1; then "$VGO" test -vet=off -count=1 ./$d/ >>"$1" 2>&1 || rc=1; else "$VGO" run ./$d/ >>"$1" 2>&1 || rc=1; fi
   done
@@ -28,7 +43,7 @@ rundemo() { # $1 = log
 }
 demo_with=pass
 rundemo /tmp/demo-with-$id-$m.log || demo_with=fail
-chk=""
+chk=""; rm -f /tmp/check-$id-$m-*.log
 for c in $id $extra; do
   (cd /verif && VERIF_REPO=$W ./check $c quick >/tmp/check-$id-$m-$c.log 2>&1); rc=$?
   chk="$chk $c:quick:rc=$rc"
